@@ -1,5 +1,6 @@
 import Generated.C12Facts
 import Req.Props.C12
+import Req.Props.C12Paths
 /-!
 # C12 — bridging theorems over the regenerated selector / wiring tables
 
@@ -79,5 +80,48 @@ theorem clone_keeps_source_generated (w : Wiring) (fresh : Nat) :
     (cloneWiring wiring w fresh).wired
     ∧ ∀ s o, (cloneWiring wiring w fresh).optsOf s = some o → o = fresh :=
   clone_keeps_source wiring stacks_wired_to_owner.2.1 stacks_wired_to_owner.2.2 w fresh
+
+/-! ## the uTLS fingerprint handshake (`Client.SetTLSFingerprint`) -/
+
+/-- The un-repaired closure, exactly: trust roots and `InsecureSkipVerify` are the client's,
+`ServerName` and `Certificates` are not (finding class `fingerprint-ignores-servername-certs`,
+repaired by `fixes/C12-5-fingerprint-servername-certs.patch`). -/
+def knownFpGap (l : List FpField) : Bool :=
+  l.contains .rootCAs && l.contains .insecureSkipVerify && !l.contains .serverName && !l.contains .certificates
+
+/-- The regenerated data-flow fact has one of exactly two shapes: every field verification and
+client authentication look at comes from the client's `tls.Config` (then the premise of
+`tls_uniform_paths` is discharged), or it is the known gap. Anything else — e.g. a closure
+that stops copying `RootCAs` or `InsecureSkipVerify` — breaks the build of this module.
+`fixes/C12-5` (/repo f3ce120) repaired the gap: only the covering shape is accepted now. -/
+theorem fp_covers : fpCovers fpCopied = true := by decide
+
+/-- `tls_uniform_paths` with its premise discharged over the regenerated fact. -/
+theorem tls_uniform_paths_generated :
+    (∀ (h : Hooks) (accepts : VerifyCfg → ServerCert → Bool) (p q : DialPath) (o o' : Bool) (host : Nat)
+        (read : Option TlsCfg) (c c' : TlsCfg) (cert : ServerCert),
+      pathCfg fpCopied h p o host read = some c → pathCfg fpCopied h q o' host read = some c' →
+      accepts (verifyPart c) cert = accepts (verifyPart c') cert ∧ c.certs = c'.certs) := by
+  intro hk accepts p q o o' host read c c' cert hp hq
+  exact tls_uniform_paths fpCopied fp_covers hk accepts p q o o' host read c c' cert hp hq
+
+/-- Whatever the fingerprint closure copies: without `SetTLSFingerprint*` (and without the two
+user functions) every dial path — direct, proxy tunnel, HTTP/2's own dial, QUIC — is uniform
+on today's tree. -/
+theorem tls_uniform_paths_builtin (dial : Bool) (accepts : VerifyCfg → ServerCert → Bool) (p q : DialPath)
+    (o o' : Bool) (host : Nat) (read : Option TlsCfg) (c c' : TlsCfg) (cert : ServerCert)
+    (hp : pathCfg fpCopied ⟨dial, none⟩ p o host read = some c)
+    (hq : pathCfg fpCopied ⟨dial, none⟩ q o' host read = some c') :
+    accepts (verifyPart c) cert = accepts (verifyPart c') cert ∧ c.certs = c'.certs := by
+  have key : ∀ (p : DialPath) (o : Bool) (c : TlsCfg), pathCfg fpCopied ⟨dial, none⟩ p o host read = some c →
+      c.toVerifyCfg = (effective .h1 false host read).toVerifyCfg := by
+    intro p o c hc
+    unfold pathCfg at hc
+    cases p <;> cases dial <;> simp [governs, hsGoverns] at hc <;> subst hc <;>
+      exact effective_verify _ _ _ _
+  have e1 := key p o c hp
+  have e2 := key q o' c' hq
+  refine ⟨by simp only [verifyPart]; rw [e1, e2], ?_⟩
+  exact congrArg VerifyCfg.certs (e1.trans e2.symm)
 
 end Bridge.C12
